@@ -3,10 +3,11 @@ import Driver.Codec
 /-!
   Per-run evaluator of the TRANSLATED RELOADER METHODS (`Rbacx.Generated.Src.reloader_check`, `Src.reloader_register_error`) over exact
   rationals (`Rbacx.PyR.qNum`).  One JSON line in:
-  `{"m": "check" | "register_error", "cfg": [backoff_min, backoff_max, jitter_ratio], "now": q, "u": q, "st": {"last_etag": value,
+  `{"m": "check" | "register_error" | "init", "cfg": [backoff_min, backoff_max, jitter_ratio], "now": q, "u": q, "st": {"last_etag": value,
     "suppress_until": q, "backoff": q, "last_reload_at": q | null, "last_error": class | null},
     check: "force": bool, "etag": {"ok": value} | {"raised": class}, "load": {"ok": value} | {"raised": class},
-           "set_policy": {"ok": null} | {"raised": class};   register_error: "err": class}` — `q` = `[numerator, denominator]`;
+           "set_policy": {"ok": null} | {"raised": class};   register_error: "err": class;
+    init: "initial_load": bool, "sync_etag": bool (the probe), "etag": outcome}` — `q` = `[numerator, denominator]`;
   one JSON line out: `{"st": {…}, "calls": [[callee, [argument values…]], …], "out": ["ret", value] | ["raised", class]}`.
   The harness (`translated_vs_python` in harness/props/c10.py) drives the REAL `HotReloader` with a scripted source / guard that behave as
   the outcome parameters say and with an injected clock / PRNG, and compares fields, calls and result: this validates the translator
@@ -68,6 +69,9 @@ def evalLine (j : Json) : Except String Json := do
       .ok (encRes (Src.reloader_check qNum bmin bmax ratio now u e l sp st [] (fieldBool j "force")))
     | "register_error" =>
       .ok (encRes (Src.reloader_register_error (P := PyVal) qNum bmin bmax ratio u st [] now (fieldStr j "err") (fieldStr j "level") (fieldStr j "msg")))
+    | "init" =>
+      let e ← decOutcome decVal (field j "etag")
+      .ok (encRes (Src.reloader_init (P := PyVal) qNum bmin (fieldBool j "initial_load") (fieldBool j "sync_etag") e st []))
     | m => .error s!"unknown method {m}"
   | _ => .error "cfg: three rationals expected"
 
